@@ -18,7 +18,7 @@ def fz(test, seconds, **kw):
 
 
 CHECKS = {
-    "C01": {"level": E, "units": [go("TestC01", 8000, 100000), fz("FuzzC01", 420, netns=True)]},
+    "C01": {"level": E, "units": [go("TestC01", 8000, 100000), fz("FuzzC01", 420, netns=True, minimize="1x")]},
     "C17": {"level": E, "units": [go("TestC17Single", 1000000, 16, netns=False), go("TestC17Pairs", 1000000, 8000000, netns=False), fz("FuzzC17", 90)]},
     "C06": {"level": E, "units": [go("TestC06Exhaustive", 16, 16, netns=False), go("TestC06Seq", 160000, 3000000, netns=False),
                                   go("TestC06Conc", 3000, 60000, race=True, netns=False, confirm=False)], "replay_race": False},
